@@ -80,7 +80,7 @@ func (w *Worker) EvalN(n int64)              { w.evals += n; w.progress.Add(1) }
 
 // Enter/Leave bracket a call into go-cvss for the stall watchdog.
 func (w *Worker) Enter(op, s string) { w.CurOp, w.CurS = op, s; w.inCall.Store(true) }
-func (w *Worker) Leave()            { w.inCall.Store(false); w.progress.Add(1) }
+func (w *Worker) Leave()             { w.inCall.Store(false); w.progress.Add(1) }
 
 // Sample keeps up to 4 samples per worker per label (reservoir of the first few + sparse later ones).
 func (w *Worker) Sample(s any) {
@@ -312,15 +312,15 @@ func (c *Ctx) Floor(what string, got, want int64) {
 
 // Evidence is the evidence file layout (EVIDENCE.schema.json).
 type Evidence struct {
-	PropertyID  string         `json:"property_id"`
-	Tier        string         `json:"tier"`
-	Seed        int64          `json:"seed"`
-	Level       string         `json:"level"`
-	Coverage    map[string]any `json:"coverage"`
-	Assumptions []string       `json:"assumptions"`
-	WallS       float64        `json:"wall_s"`
-	Violations  int64          `json:"violations"`
-	Verdict     string         `json:"verdict"`
+	PropertyID  string           `json:"property_id"`
+	Tier        string           `json:"tier"`
+	Seed        int64            `json:"seed"`
+	Level       string           `json:"level"`
+	Coverage    map[string]any   `json:"coverage"`
+	Assumptions []string         `json:"assumptions"`
+	WallS       float64          `json:"wall_s"`
+	Violations  int64            `json:"violations"`
+	Verdict     string           `json:"verdict"`
 	Known       map[string]int64 `json:"known_findings_observed,omitempty"`
 }
 
@@ -472,8 +472,8 @@ func (d *Distinct) Add(h uint64) {
 	}
 	s.mu.Unlock()
 }
-func (d *Distinct) Count() int64  { return d.n.Load() }
-func (d *Distinct) Capped() bool  { return d.n.Load() >= d.cap }
+func (d *Distinct) Count() int64 { return d.n.Load() }
+func (d *Distinct) Capped() bool { return d.n.Load() >= d.cap }
 
 // HashString is FNV-1a 64.
 func HashString(s string) uint64 {
